@@ -58,6 +58,20 @@ sys.exit(1 if reg or passed==0 else 0)
 PY
 rt=$?
 rm -f $dest/tests.json
+if [ $rt -ne 0 ] && [ -f $dest/tests_summary.json ]; then
+  # timing-sensitive tests fail under load: re-run each apparent regression alone before believing it
+  still=0
+  for t in $(jq -r '.regressions[]' $dest/tests_summary.json); do
+    pkg=${t%%::*}; name=${t##*::}; top=${name%%/*}
+    rel=${pkg#github.com/openbao/openbao/v2/}
+    if go test -count=1 -vet=off -run "^${top}\$" ./$rel/ > /dev/null 2>&1; then
+      echo "   re-run alone: $t PASSES (load-induced flake)" >> $log
+    else
+      echo "   re-run alone: $t still FAILS" >> $log; still=1
+    fi
+  done
+  [ "$(jq -r '.passed' $dest/tests_summary.json)" -gt 0 ] && rt=$still
+fi
 git checkout -q -- . ; git clean -qfd
 if [ $r0 -eq 0 ] && [ $r1 -ne 0 ] && [ $rb -eq 0 ] && [ $rt -eq 0 ]; then echo "CONFIRMED" >> $log; else echo "NOT CONFIRMED (without=$r0 with=$r1 build=$rb tests=$rt)" >> $log; fi
 # keep logs small
